@@ -161,6 +161,15 @@ impl<VM: VMBinding> WorkBucket<VM> {
 
     /// Open the bucket
     pub fn open(&self) {
+        #[cfg(mmtk_verif)]
+        crate::util::verif::rt::yield_point(crate::util::verif::rt::site::SCHED_BUCKET_OPEN);
+        #[cfg(mmtk_verif)]
+        crate::util::verif::rt::event(
+            crate::util::verif::rt::ev::BUCKET_OPEN,
+            self.stage.into_usize(),
+            0,
+            0,
+        );
         self.open.store(true, Ordering::SeqCst);
     }
 
@@ -185,46 +194,134 @@ impl<VM: VMBinding> WorkBucket<VM> {
             "Bucket {:?} not drained before close",
             self.stage
         );
+        #[cfg(mmtk_verif)]
+        crate::util::verif::rt::event(
+            crate::util::verif::rt::ev::BUCKET_CLOSE,
+            self.stage.into_usize(),
+            0,
+            0,
+        );
         self.open.store(false, Ordering::Relaxed);
+    }
+
+    #[cfg(mmtk_verif)]
+    fn verif_added(&self, work: &dyn GCWork<VM>) {
+        use crate::util::verif::rt;
+        rt::event_str(
+            rt::ev::PACKET_ADD,
+            self.stage.into_usize(),
+            work.get_type_name(),
+        );
+        rt::event(
+            rt::ev::PACKET_ADD,
+            self.stage.into_usize(),
+            0,
+            work as *const dyn GCWork<VM> as *const u8 as usize,
+        );
+    }
+
+    #[cfg(mmtk_verif)]
+    fn verif_enter(&self) {
+        use crate::util::verif::rt;
+        rt::event(rt::ev::ADD_ENTER, self.stage.into_usize(), 0, 0);
+    }
+
+    #[cfg(mmtk_verif)]
+    fn verif_between(&self) {
+        use crate::util::verif::rt;
+        rt::yield_point(rt::site::SCHED_BUCKET_ADD);
+    }
+
+    #[cfg(mmtk_verif)]
+    fn verif_exit(&self) {
+        use crate::util::verif::rt;
+        rt::event(rt::ev::ADD_EXIT, self.stage.into_usize(), 0, 0);
+    }
+
+    /// Does this bucket have a sentinel?  (Never blocks.)
+    #[cfg(mmtk_verif)]
+    pub fn has_sentinel_nolock(&self) -> bool {
+        self.sentinel
+            .try_lock()
+            .map(|s| s.is_some())
+            .unwrap_or(false)
     }
 
     /// Add a work packet to this bucket
     /// Panic if this bucket cannot receive prioritized packets.
     pub fn add_prioritized(&self, work: Box<dyn GCWork<VM>>) {
+        #[cfg(mmtk_verif)]
+        self.verif_enter();
+        #[cfg(mmtk_verif)]
+        self.verif_added(work.as_ref());
         self.prioritized_queue.as_ref().unwrap().push(work);
+        #[cfg(mmtk_verif)]
+        self.verif_between();
         self.notify_one_worker();
+        #[cfg(mmtk_verif)]
+        self.verif_exit();
     }
 
     /// Add a work packet to this bucket
+    #[cfg(not(mmtk_verif))]
     pub fn add<W: GCWork<VM>>(&self, work: W) {
         self.queue.push(Box::new(work));
         self.notify_one_worker();
     }
 
+    #[cfg(mmtk_verif)]
+    pub fn add<W: GCWork<VM>>(&self, work: W) {
+        self.add_boxed(Box::new(work));
+    }
+
     /// Add a work packet to this bucket
     pub fn add_boxed(&self, work: Box<dyn GCWork<VM>>) {
+        #[cfg(mmtk_verif)]
+        self.verif_enter();
+        #[cfg(mmtk_verif)]
+        self.verif_added(work.as_ref());
         self.queue.push(work);
+        #[cfg(mmtk_verif)]
+        self.verif_between();
         self.notify_one_worker();
+        #[cfg(mmtk_verif)]
+        self.verif_exit();
     }
 
     /// Add a work packet to this bucket, but do not notify any workers.
     /// This is useful when the current thread is holding the mutex of `WorkerMonitor` which is
     /// used for notifying workers.  This usually happens if the current thread is the last worker
     /// parked.
+    #[cfg(not(mmtk_verif))]
     pub(crate) fn add_no_notify<W: GCWork<VM>>(&self, work: W) {
         self.queue.push(Box::new(work));
     }
 
+    #[cfg(mmtk_verif)]
+    pub(crate) fn add_no_notify<W: GCWork<VM>>(&self, work: W) {
+        self.add_boxed_no_notify(Box::new(work));
+    }
+
     /// Like [`WorkBucket::add_no_notify`], but the work is boxed.
     pub(crate) fn add_boxed_no_notify(&self, work: Box<dyn GCWork<VM>>) {
+        #[cfg(mmtk_verif)]
+        self.verif_added(work.as_ref());
         self.queue.push(work);
     }
 
     /// Add multiple packets with a higher priority.
     /// Panic if this bucket cannot receive prioritized packets.
     pub fn bulk_add_prioritized(&self, work_vec: Vec<Box<dyn GCWork<VM>>>) {
+        #[cfg(mmtk_verif)]
+        self.verif_enter();
+        #[cfg(mmtk_verif)]
+        work_vec.iter().for_each(|w| self.verif_added(w.as_ref()));
         self.prioritized_queue.as_ref().unwrap().push_all(work_vec);
+        #[cfg(mmtk_verif)]
+        self.verif_between();
         self.notify_all_workers();
+        #[cfg(mmtk_verif)]
+        self.verif_exit();
     }
 
     /// Add multiple packets
@@ -232,12 +329,22 @@ impl<VM: VMBinding> WorkBucket<VM> {
         if work_vec.is_empty() {
             return;
         }
+        #[cfg(mmtk_verif)]
+        self.verif_enter();
+        #[cfg(mmtk_verif)]
+        work_vec.iter().for_each(|w| self.verif_added(w.as_ref()));
         self.queue.push_all(work_vec);
+        #[cfg(mmtk_verif)]
+        self.verif_between();
         self.notify_all_workers();
+        #[cfg(mmtk_verif)]
+        self.verif_exit();
     }
 
     /// Get a work packet from this bucket
     pub fn poll(&self, worker: &Worker<Box<dyn GCWork<VM>>>) -> Steal<Box<dyn GCWork<VM>>> {
+        #[cfg(mmtk_verif)]
+        crate::util::verif::rt::yield_point(crate::util::verif::rt::site::SCHED_BUCKET_POLL);
         if !self.is_enabled() || !self.is_open() || self.is_empty() {
             return Steal::Empty;
         }
@@ -287,6 +394,8 @@ impl<VM: VMBinding> WorkBucket<VM> {
             let mut sentinel = self.sentinel.lock().unwrap();
             sentinel.take()
         };
+        #[cfg(mmtk_verif)]
+        crate::util::verif::rt::yield_point(crate::util::verif::rt::site::SCHED_SENTINEL);
         if let Some(work) = maybe_sentinel {
             // We don't need to notify other workers because this function is called by the last
             // parked worker.  After this function returns, the caller will notify workers because
